@@ -44,6 +44,10 @@ def model (ws : List String) : Option String :=
     pure s!"{restrictedEqual isL isN sortS ns old nw} {fs}"
   | _ => none
 
+def strictSorted : List (List Char) → Bool
+  | a :: b :: rest => decide (String.ofList a < String.ofList b) && strictSorted (b :: rest)
+  | _ => true
+
 def verdict (ws : List String) (out : List String) : Option Bool :=
   match ws with
   | ["q.parse", q] => do
@@ -53,6 +57,28 @@ def verdict (ws : List String) (out : List String) : Option Bool :=
       | some r => showRes r
       | none => "err"
     pure (" ".intercalate out == want)
+  | ["tags.norm", mx, src] => do
+    let mx ← decNat mx
+    if src == "nil" then pure (out == ["nil"]) else
+    let src ← parseList src
+    match out with
+    | ["nil"] => pure true
+    | [o] => do
+      let r ← parseList o
+      let cand := (src.take mx).map trimLower
+      -- trimmed+lower-cased inputs only, length and first-character rules, strictly sorted (hence de-duplicated), count limit
+      pure (r.all (fun x => cand.contains x && 2 ≤ x.length && x.length ≤ 96 &&
+              (match x with | c :: _ => isL c || isN c | [] => false)) &&
+            strictSorted r && r.length ≤ mx)
+    | _ => pure false
+  | ["tags.restricted", ns, old, nw] => do
+    let ns ← parseList ns; let old ← parseList old; let nw ← parseList nw
+    match out with
+    | [b, _] =>
+      -- accepted iff the restricted-namespace tags are the same multiset
+      let same := sortS (filterRestricted isL isN ns old) == sortS (filterRestricted isL isN ns nw)
+      pure (b == toString same)
+    | _ => pure false
   | _ => pure true
 
 end Tinode.Driver.C19
